@@ -38,6 +38,33 @@ theorem generated_open_reader (src : Src) (encoding : String) (lowc : F) (charde
 /-- `extras = list(extra_cols) if extra_cols else []` as translated -/
 theorem generated_extras (xs : Option (List String)) : parse_swc_extras xs = some (normExtras xs, ()) := parse_swc_extras_eq xs
 
+/-- `SWCNames.cols` and `get_names` as translated: the seven names in the order id, type, x, y, z, r, pid; `None` = the class defaults -/
+theorem generated_names (nm : SWCNames7) (names : Option SWCNames7) :
+    swc_names_cols nm = some [nm.id, nm.type, nm.x, nm.y, nm.z, nm.r, nm.pid] ∧ get_names names = some (names.getD defaultNames) ∧
+    namesCols defaultNames = ["id", "type", "x", "y", "z", "r", "pid"] :=
+  ⟨rfl, rfl, rfl⟩
+
+/-- the first half of `read_swc` as translated: `parse_swc` is called with the file, the DEFAULTED names, `extra_cols` and `encoding` -/
+theorem generated_read_swc_front {DF CM : Type} [Inhabited DF] [Inhabited CM]
+    (P : Src → SWCNames7 → Option (List String) → String → Option (DF × CM)) (src : Src) (xs : Option (List String)) (encoding : String)
+    (names : Option SWCNames7) :
+    read_swc_front P src xs encoding names =
+      (P src (names.getD defaultNames) xs encoding).map fun r => (names.getD defaultNames, r.1, r.2, ()) :=
+  read_swc_front_eq P src xs encoding names
+
+/-- **the prologue of `parse_swc` as translated**: the conversions `int, int, float, float, float, float, int` + `float` per extra column
+(0 / 1: the dtype of the column), the regular-expression TEXT for `k` extras (`reSwcText k`: the seven pinned groups + `k` times `RE_FLOAT`,
+joined by `\s+`, then the optional tail), the trailing group `7 + k + 1`, the header comment `' '.join(names.cols())` -/
+theorem generated_prologue (nm : SWCNames7) (extras : List String) :
+    parse_swc_prologue nm extras =
+      some ([0, 0, 1, 1, 1, 1, 0] ++ List.replicate extras.length 1, reSwcText extras.length, 7 + (extras.length : Int) + 1,
+        Py.strJoin " " (namesCols nm), ()) :=
+  parse_swc_prologue_eq nm extras
+
+/-- the regular expression without extras is the one the hand-written recogniser was written for (`C02.consts_pinned`), as TEXT -/
+example : reSwcText 0 = "^\\s*([0-9]+)\\s+([0-9]+)\\s+" ++ Gen.Consts.reFloat ++ "\\s+" ++ Gen.Consts.reFloat ++ "\\s+" ++ Gen.Consts.reFloat ++ "\\s+" ++
+    Gen.Consts.reFloat ++ "\\s+(-?[0-9]+)((?:\\s+[+-.0-9eE]+)*)\\s*$" := by decide +kernel
+
 /-- **which list becomes which column**: under DISTINCT keys, the column stored under the `j`-th key (`names.cols()` then the extras, in
 order) holds the `j`-th field of every data row, in file order -/
 theorem table_column (cols extras : List String) (rows : List (List Val)) (hnd : (cols ++ extras).Nodup)
@@ -54,68 +81,77 @@ theorem table_column (cols extras : List String) (rows : List (List Val)) (hnd :
 /-- the integer column `names.<k>` that the tail of `read_swc` works on -/
 def colOf (intOf : Val → Int) (rows : List (List Val)) (j : Nat) : List Int := (rows.filterMap (·[j]?)).map intOf
 
-theorem colInt_table (intOf : Val → Int) (cols extras : List String) (rows : List (List Val)) (hnd : (cols ++ extras).Nodup)
-    (hrows : ∀ fs ∈ rows, cols.length + extras.length ≤ fs.length) (j : Nat) (hj : j < cols.length) :
-    colInt intOf (tableOf cols extras rows) cols j = some (colOf intOf rows j) := by
-  have hj2 : j < (cols ++ extras).length := by simp; omega
-  have hk : (cols ++ extras)[j] = cols[j] := by simp [List.getElem_append_left hj]
-  have := (table_column cols extras rows hnd hrows j hj2).1
-  rw [hk] at this
-  simp [colInt, List.getElem?_eq_getElem hj, this, colOf]
+theorem colInt_table (intOf : Val → Int) (nm : SWCNames7) (extras : List String) (rows : List (List Val))
+    (hnd : (namesCols nm ++ extras).Nodup) (hrows : ∀ fs ∈ rows, 7 + extras.length ≤ fs.length) :
+    colInt intOf (tableOf (namesCols nm) extras rows) nm.id = some (colOf intOf rows 0) ∧
+    colInt intOf (tableOf (namesCols nm) extras rows) nm.type = some (colOf intOf rows 1) ∧
+    colInt intOf (tableOf (namesCols nm) extras rows) nm.r = some (colOf intOf rows 5) ∧
+    colInt intOf (tableOf (namesCols nm) extras rows) nm.pid = some (colOf intOf rows 6) := by
+  have hl : (namesCols nm ++ extras).length = 7 + extras.length := by simp [namesCols_length]
+  have hrows' : ∀ fs ∈ rows, (namesCols nm).length + extras.length ≤ fs.length := by simpa [namesCols_length] using hrows
+  have h := fun j (hj : j < (namesCols nm ++ extras).length) => (table_column (namesCols nm) extras rows hnd hrows' j hj).1
+  have h0 := h 0 (by omega); have h1 := h 1 (by omega); have h5 := h 5 (by omega); have h6 := h 6 (by omega)
+  simp only [namesCols, List.cons_append, List.getElem_cons_zero, List.getElem_cons_succ] at h0 h1 h5 h6
+  simp [colInt, colOf, namesCols, h0, h1, h5, h6]
 
 /-- **`read_swc` on a file whose lines are all valid** (any source kind, any options): one row per data line in file order - column
 `(cols ++ extras)[j]` of the table is field `j` of every data line (`table_column`) -, the kept comments in order, the warning for the
 first row with ignored fields; then the tail runs on the columns id / pid / type / r of exactly these rows: repair (`fix_roots`), then
 `sort_nodes_` if `sort_nodes` ELSE `reset_index_` if `reset_index`, then the three checks. -/
-theorem generated_read_swc_rows (intOf : Val → Int) (norm : σ → Int → σ × List Int) (fuel : Nat) (cols : List String) (src : Src)
-    (xs : Option (List String)) (mode : Option String) (srt rst : Bool) (encoding : String) (lowc : F) (chardet : Option String × F) (cbs : σ)
-    (ls : List L) (hc : cols.length = 7) (hnd : (cols ++ normExtras xs).Nodup)
+theorem generated_read_swc_rows (intOf : Val → Int) (norm : σ → Int → σ × List Int) (fuel : Nat) (src : Src)
+    (xs : Option (List String)) (mode : Option String) (srt rst : Bool) (encoding : String) (names : Option SWCNames7) (lowc : F)
+    (chardet : Option String × F) (cbs : σ)
+    (ls : List L) (hnd : (namesCols (names.getD defaultNames) ++ normExtras xs).Nodup)
     (hk : ∀ l fs t, rowOf l = some (fs, t) → 7 + (normExtras xs).length ≤ fs.length)
     (hlines : linesRead linesOf src encoding chardet.1 = ⟨ls, none⟩)
     (hvalid : ∀ l ∈ ls, isInvalid rowOf commentOf blank l = false) :
-    readSwcFull linesOf rowOf commentOf isHeader blank intOf norm fuel cols src xs mode srt rst encoding lowc chardet cbs =
+    readSwcFull linesOf rowOf commentOf isHeader blank intOf norm fuel src xs mode srt rst encoding names lowc chardet cbs =
       let rows := ls.filterMap (rowAt rowOf)
       let ids := colOf intOf rows 0; let pids := colOf intOf rows 6; let types := colOf intOf rows 1; let rs := colOf intOf rows 5
       (RefineRepair.fixStage norm fuel ids pids types mode cbs).bind fun f =>
         (RefineRepair.normStage fuel ids f.1 f.2.1 rs srt rst).bind fun g =>
           (RefineRepair.checkStage fuel g.1 g.2.1 g.2.2.2).map fun w =>
-            .ok ⟨tableOf cols (normExtras xs) rows, ls.filterMap (keptComment rowOf commentOf isHeader), g.1, g.2.1, g.2.2.1, g.2.2.2,
+            .ok ⟨tableOf (namesCols (names.getD defaultNames)) (normExtras xs) rows, ls.filterMap (keptComment rowOf commentOf isHeader),
+              g.1, g.2.1, g.2.2.1, g.2.2.2,
               detectWarn src encoding lowc chardet, (match firstTail rowOf ls 0 with | some n => [warnExc n] | none => []), w, f.2.2⟩ := by
-  have hp := (generated_read_ok_iff rowOf commentOf isHeader blank cols (normExtras xs) ⟨some (), false⟩ ls hc hk _ _ _ _).2
-    ⟨hvalid, rfl, rfl, rfl, rfl⟩
-  have hrows : ∀ fs ∈ ls.filterMap (rowAt rowOf), cols.length + (normExtras xs).length ≤ fs.length := by
-    rw [hc]; exact rows_long rowOf (normExtras xs) ls hk
+  have hp := (generated_read_ok_iff rowOf commentOf isHeader blank (namesCols (names.getD defaultNames)) (normExtras xs) ⟨some (), false⟩ ls
+    (namesCols_length _) hk _ _ _ _).2 ⟨hvalid, rfl, rfl, rfl, rfl⟩
+  obtain ⟨c0, c1, c5, c6⟩ := colInt_table intOf (names.getD defaultNames) (normExtras xs) (ls.filterMap (rowAt rowOf)) hnd
+    (rows_long rowOf (normExtras xs) ls hk)
   rw [readSwcFull_eq, hlines, hp]
   simp only [Option.bind_some, backStages]
-  rw [colInt_table intOf cols _ _ hnd hrows 0 (by omega), colInt_table intOf cols _ _ hnd hrows 6 (by omega),
-    colInt_table intOf cols _ _ hnd hrows 1 (by omega), colInt_table intOf cols _ _ hnd hrows 5 (by omega)]
+  rw [c0, c1, c5, c6]
   rfl
 
 /-- **never a shortened or partially filled table**: a line that is neither a data row, a comment nor blank - after any valid prefix,
 before any suffix, with or without a later decode failure - makes `read_swc` raise `ValueError("invalid row n")` for the FIRST such line,
 for every source kind and whatever `extra_cols` / `fix_roots` / `sort_nodes` / `reset_index` / `encoding` are -/
-theorem generated_read_swc_invalid (intOf : Val → Int) (norm : σ → Int → σ × List Int) (fuel : Nat) (cols : List String) (src : Src)
-    (xs : Option (List String)) (mode : Option String) (srt rst : Bool) (encoding : String) (lowc : F) (chardet : Option String × F) (cbs : σ)
-    (pre : List L) (bad : L) (post : List L) (fail : Option Py.Exc) (hc : cols.length = 7)
+theorem generated_read_swc_invalid (intOf : Val → Int) (norm : σ → Int → σ × List Int) (fuel : Nat) (src : Src)
+    (xs : Option (List String)) (mode : Option String) (srt rst : Bool) (encoding : String) (names : Option SWCNames7) (lowc : F)
+    (chardet : Option String × F) (cbs : σ)
+    (pre : List L) (bad : L) (post : List L) (fail : Option Py.Exc)
     (hk : ∀ l fs t, rowOf l = some (fs, t) → 7 + (normExtras xs).length ≤ fs.length)
     (hlines : linesRead linesOf src encoding chardet.1 = ⟨pre ++ bad :: post, fail⟩)
     (hpre : ∀ l ∈ pre, isInvalid rowOf commentOf blank l = false) (hbad : isInvalid rowOf commentOf blank bad = true) :
-    readSwcFull linesOf rowOf commentOf isHeader blank intOf norm fuel cols src xs mode srt rst encoding lowc chardet cbs =
+    readSwcFull linesOf rowOf commentOf isHeader blank intOf norm fuel src xs mode srt rst encoding names lowc chardet cbs =
       some (.error (invalidExc (pre.length + 1))) := by
-  obtain ⟨ws, hp⟩ := generated_never_partial rowOf commentOf isHeader blank cols (normExtras xs) ⟨some (), false⟩ pre bad post fail hc hk hpre hbad
+  obtain ⟨ws, hp⟩ := generated_never_partial rowOf commentOf isHeader blank (namesCols (names.getD defaultNames)) (normExtras xs) ⟨some (), false⟩ pre bad post fail
+    (namesCols_length _) hk hpre hbad
   rw [readSwcFull_eq, hlines, hp]
   rfl
 
 /-- **bytes that cannot be decoded**: the call raises (never a table); `ValueError("decode failed …")` when every line before the failure
 is valid and the failure is a `UnicodeDecodeError` -/
-theorem generated_read_swc_decode (intOf : Val → Int) (norm : σ → Int → σ × List Int) (fuel : Nat) (cols : List String) (src : Src)
-    (xs : Option (List String)) (mode : Option String) (srt rst : Bool) (encoding : String) (lowc : F) (chardet : Option String × F) (cbs : σ)
-    (ls : List L) (e : Py.Exc) (hc : cols.length = 7)
+theorem generated_read_swc_decode (intOf : Val → Int) (norm : σ → Int → σ × List Int) (fuel : Nat) (src : Src)
+    (xs : Option (List String)) (mode : Option String) (srt rst : Bool) (encoding : String) (names : Option SWCNames7) (lowc : F)
+    (chardet : Option String × F) (cbs : σ)
+    (ls : List L) (e : Py.Exc)
     (hk : ∀ l fs t, rowOf l = some (fs, t) → 7 + (normExtras xs).length ≤ fs.length)
     (hlines : linesRead linesOf src encoding chardet.1 = ⟨ls, some e⟩) :
-    ∃ e', readSwcFull linesOf rowOf commentOf isHeader blank intOf norm fuel cols src xs mode srt rst encoding lowc chardet cbs = some (.error e') ∧
+    ∃ e', readSwcFull linesOf rowOf commentOf isHeader blank intOf norm fuel src xs mode srt rst encoding names lowc chardet cbs = some (.error e') ∧
       ((∀ l ∈ ls, isInvalid rowOf commentOf blank l = false) → e.kind = "UnicodeDecodeError" → e' = decodeExc) := by
-  obtain ⟨ws, e', hp, he⟩ := generated_decode_fails_loudly rowOf commentOf isHeader blank cols (normExtras xs) ⟨some (), false⟩ ls e hc hk
+  obtain ⟨ws, e', hp, he⟩ := generated_decode_fails_loudly rowOf commentOf isHeader blank (namesCols (names.getD defaultNames)) (normExtras xs) ⟨some (), false⟩ ls e
+    (namesCols_length _) hk
   refine ⟨e', ?_, he⟩
   rw [readSwcFull_eq, hlines, hp]
   rfl
@@ -129,10 +165,11 @@ theorem generated_norm_dispatch (fuel : Nat) (ids pids types rs : List Int) (rst
   simp [RefineRepair.normStage]
 
 /-- … hence the whole call does not depend on `reset_index` when `sort_nodes` is set -/
-theorem generated_read_swc_sort_ignores_reset (intOf : Val → Int) (norm : σ → Int → σ × List Int) (fuel : Nat) (cols : List String) (src : Src)
-    (xs : Option (List String)) (mode : Option String) (rst : Bool) (encoding : String) (lowc : F) (chardet : Option String × F) (cbs : σ) :
-    readSwcFull linesOf rowOf commentOf isHeader blank intOf norm fuel cols src xs mode true rst encoding lowc chardet cbs =
-      readSwcFull linesOf rowOf commentOf isHeader blank intOf norm fuel cols src xs mode true false encoding lowc chardet cbs := by
+theorem generated_read_swc_sort_ignores_reset (intOf : Val → Int) (norm : σ → Int → σ × List Int) (fuel : Nat) (src : Src)
+    (xs : Option (List String)) (mode : Option String) (rst : Bool) (encoding : String) (names : Option SWCNames7) (lowc : F)
+    (chardet : Option String × F) (cbs : σ) :
+    readSwcFull linesOf rowOf commentOf isHeader blank intOf norm fuel src xs mode true rst encoding names lowc chardet cbs =
+      readSwcFull linesOf rowOf commentOf isHeader blank intOf norm fuel src xs mode true false encoding names lowc chardet cbs := by
   simp only [readSwcFull_eq, backStages, RefineRepair.normStage, if_true]
 
 /-! non-vacuity (kernel-evaluated): a line is `(i, p)`: `i ≥ 0` a data row `[i, 1, 0, 0, 0, 1, p]`, `i = -1` the comment `p` (header iff
@@ -146,13 +183,13 @@ def fxLines (good : Bool) : Src → Py.Stream (Int × Int)
   | _ => ⟨[], none⟩
 def fxNorm : Unit → Int → Unit × List Int := fun _ _ => ((), [])
 
-example : (match readSwcFull (F := Int) (fxLines true) fxRow fxCmt (· = 0) (·.1 = -2) id fxNorm 20 exCols (.bytes 1) none none false true
-      "detect" 9 (none, 5) () with
+example : (match readSwcFull (F := Int) (fxLines true) fxRow fxCmt (· = 0) (·.1 = -2) id fxNorm 20 (.bytes 1) none none false true
+      "detect" none 9 (none, 5) () with
     | some (.ok o) => decide (o.ids = [0, 1, 2] ∧ o.pids = [-1, 0, 1] ∧ o.comments = [7] ∧ o.warnDetect = [0] ∧ o.warnCheck = [] ∧
         Dict.get? o.df "pid" = some [-1, 0, 1])
     | _ => false) = true := by decide +kernel
-example : (match readSwcFull (F := Int) (fxLines false) fxRow fxCmt (· = 0) (·.1 = -2) id fxNorm 20 exCols (.bytes 1) (some []) (some "somas") true true
-      "detect" 9 (none, 5) () with
+example : (match readSwcFull (F := Int) (fxLines false) fxRow fxCmt (· = 0) (·.1 = -2) id fxNorm 20 (.bytes 1) (some []) (some "somas") true true
+      "detect" none 9 (none, 5) () with
     | some (.error e) => decide (e = invalidExc 5)
     | _ => false) = true := by decide +kernel
 end
